@@ -125,7 +125,7 @@ pub fn reassignment(input: Node) -> (r: Result<Reassignment, VErr>)
         // C03 / C02: the value's type fits the place
         &&& type_of(&r->Ok_0.value, the_class(&input)) is Some
         &&& assign_fits(type_of(&r->Ok_0.value, the_class(&input))->Some_0, place_type(path_of(path)), &input)
-        // C02: a value that may be nil never goes into a place whose type does not admit nil (`xs[0] = x`, x: int?, xs: [int...]: D50)
+        // C03 (re-assignment with a different type): a value that may be nil never goes into a place whose type does not admit nil (`xs[0] = x`, x: int?, xs: [int...]: D50)
         &&& !(may_be_nil(type_of(&r->Ok_0.value, the_class(&input))->Some_0) && !may_be_nil(place_type(path_of(path))))
     }}),
 {{
